@@ -14,6 +14,8 @@ C15); it is checked on the real resolver by the harness.
 namespace Pkgcore.C16
 open List
 
+def vv0 : Pkgcore.C01.Ver := ⟨[['1']], none, []⟩
+
 /-- **The upgrade stream is the policy order**: it offers exactly the matching candidates, each version before every
 lower one, and among equal versions the installed instance first. -/
 theorem upgrade_stream_ordered (dbs : List Repo) (hw : ∀ r ∈ dbs, ∀ c ∈ r, CandWF c) (ho : ∀ r ∈ dbs, RepoOk r) :
@@ -86,6 +88,39 @@ theorem stream_order_independent (dbs dbs' : List Repo) (hw : ∀ r ∈ dbs, ∀
     exact hw r hr x hxr
   · intro x hx y hy
     exact strict x (p.mem_iff.mp hx) y (p.mem_iff.mp hy)
+
+/-- **The resolver's memory of insoluble atoms is history independent**: after any sequence of lookups (any number of targets
+resolved on one resolver, lookups limited to the installed repositories or not, in any order), an atom is remembered as
+insoluble only if some lookup found that *no* repository offers a candidate for it — so pruning by `insoluble` never removes a
+candidate that an earlier target merely failed to find among the installed packages. -/
+theorem insoluble_sound (ls : List Lookup) (a : Nat) (h : a ∈ insolubleAfter ls) :
+    ∃ l ∈ ls, l.atom = a ∧ l.cands = [] := by
+  have gen : ∀ (ls : List Lookup) (ins : List Nat), a ∈ ls.foldl markInsoluble ins →
+      a ∈ ins ∨ ∃ l ∈ ls, l.atom = a ∧ l.cands = [] := by
+    intro ls
+    induction ls with
+    | nil => intro ins h; exact .inl h
+    | cons l ls ih =>
+      intro ins h
+      simp only [List.foldl_cons] at h
+      rcases ih _ h with h1 | ⟨l', hl', e⟩
+      · unfold markInsoluble at h1
+        by_cases hc : (!l.limited && (lookupMatches l).isEmpty) = true
+        · rw [if_pos hc] at h1
+          rcases List.mem_cons.mp h1 with rfl | h1
+          · simp only [Bool.and_eq_true, Bool.not_eq_true', List.isEmpty_iff] at hc
+            refine .inr ⟨l, by simp, rfl, ?_⟩
+            have := hc.2
+            simpa [lookupMatches, hc.1] using this
+          · exact .inl h1
+        · rw [if_neg hc] at h1; exact .inl h1
+      · exact .inr ⟨l', List.mem_cons_of_mem _ hl', e⟩
+  rcases gen ls [] h with h | h
+  · cases h
+  · exact h
+
+/-- a lookup limited to the installed packages that finds nothing leaves no trace, an unlimited one without candidates does -/
+example : insolubleAfter [⟨7, [⟨0, vv0, [], false⟩], true⟩, ⟨8, [], false⟩, ⟨7, [⟨0, vv0, [], false⟩], false⟩] = [8] := by decide
 
 /-! non-vacuity: two source repos and the installed repo, with a tie between an installed and a source 1.10, `1.9 < 1.10` -/
 
